@@ -624,28 +624,7 @@ impl LockStep {
                     return Ok(false);
                 }
                 s.apply(&mut self.sut);
-                match s {
-                    Stim::InReg(i, v) => self.rf.inputs[(*i & 3) as usize] = *v,
-                    Stim::Di(v) => self.rf.board.set_di1(*v),
-                    Stim::Jumper(n, v) => self.rf.board.set_jumper(*n, *v),
-                    Stim::Uio(n, v) => self.rf.board.set_uio((*n as usize).clamp(1, 3) - 1, *v),
-                    Stim::Volt(w, bits) => {
-                        let f = f32::from_bits(*bits);
-                        match w {
-                            0 => self.rf.board.set_temp(f),
-                            1 => self.rf.board.set_ai(0, f),
-                            _ => self.rf.board.set_ai(1, f),
-                        }
-                    }
-                    Stim::BusWrite(a, v) => self.rf.poke(*a, *v),
-                    Stim::BusRead(_) => {}
-                    Stim::Flip(a, bit) => {
-                        if *a < 0xF0 {
-                            self.rf.ram[*a as usize] ^= 1 << (bit & 7);
-                        }
-                    }
-                    _ => unreachable!(),
-                }
+                ref_apply_env(&mut self.rf, s);
                 self.hint = io_snapshot(&self.sut);
             }
         }
@@ -700,6 +679,32 @@ impl LockStep {
             Pending::ContinueNop => Class::Stop,
             Pending::Insn => class_of(self.rf.latch),
         }
+    }
+}
+
+/// Apply an environment-side / second-party stimulus to the reference model.
+pub fn ref_apply_env(rf: &mut Ref, s: &Stim) {
+    match s {
+        Stim::InReg(i, v) => rf.inputs[(*i & 3) as usize] = *v,
+        Stim::Di(v) => rf.board.set_di1(*v),
+        Stim::Jumper(n, v) => rf.board.set_jumper(*n, *v),
+        Stim::Uio(n, v) => rf.board.set_uio((*n as usize).clamp(1, 3) - 1, *v),
+        Stim::Volt(w, bits) => {
+            let f = f32::from_bits(*bits);
+            match w {
+                0 => rf.board.set_temp(f),
+                1 => rf.board.set_ai(0, f),
+                _ => rf.board.set_ai(1, f),
+            }
+        }
+        Stim::BusWrite(a, v) => rf.poke(*a, *v),
+        Stim::BusRead(_) => {}
+        Stim::Flip(a, bit) => {
+            if *a < 0xF0 {
+                rf.ram[*a as usize] ^= 1 << (bit & 7);
+            }
+        }
+        _ => {}
     }
 }
 
